@@ -134,3 +134,27 @@ def zb(v):
 
 def zi(v):
     return z3.IntVal(v) if isinstance(v, int) and not isinstance(v, bool) else v
+
+
+# ---------------------------------------------------------------------------------------- imports of the real module
+class ModuleModel:
+    """`import x` binds a module object: attribute access resolves in the functions the contract provides; calling the module itself is a TypeError"""
+    @staticmethod
+    def getattr(ex, o, name):
+        fns = o.f['fns']
+        if name in fns:
+            return fns[name]
+        return NOTHANDLED
+
+
+def bind_imports(ex, rel, provided):
+    """bind the names the real module imports (`import time` vs `from time import time` is read from the module's own ast):
+    provided = {'time': {'time': Native(...), ...}}"""
+    ex.models['module'] = ModuleModel
+    imps = extract.load(rel).imports()
+    g = ex.modules[rel]
+    for local, how in imps.items():
+        if how[0] == 'module' and how[1] in provided:
+            g[local] = Obj('module', name=how[1], fns=provided[how[1]])
+        elif how[0] == 'from' and how[1].lstrip('.') in provided and how[2] in provided[how[1].lstrip('.')]:
+            g[local] = provided[how[1].lstrip('.')][how[2]]
